@@ -27,6 +27,9 @@ The subset
                  `product(xs, repeat=n)` or a list; function values: `partial(f, a, ..)`, a bare reference to a declared
                  opaque callable, locals of function type; optional parameters (`opt:<type>`: `x is None` becomes a Bool
                  parameter `x_none`), default values and keyword arguments in calls of functions of the same unit.
+                 (C12) `xs.index(v)` (`Rpylib.Py.indexOf`), `x = next((.. for .. if ..), None)` (first element of the
+                 comprehension + a Bool local `x_none` read by `x is None` / `x is not None`), `xs[i], y = e1, e2`
+                 (right-hand sides first, then the stores left to right).
   recursion    : a function that calls itself is translated with a fuel argument (`partial` would hide it from proofs);
                  the fuel-free wrapper starts with the fuel given in the spec.
   numpy vectors: (the `nd_*` methods; elementwise arithmetic itself is `pylite4_binop`, ufuncs of `fn_params` on a vector are
@@ -93,6 +96,21 @@ The subset
                  last axis), `np.empty_like(m)`, `m[:, k] = v` on an array built by the function.  `try: B except E: H` with
                  `opts["try_raises"] = {"E": name}`: `if name then H else B` for the Bool parameter `name` = "B raises E" (only
                  when H re-assigns everything B assigns that is read afterwards); `logging.f(..)` statements are skipped.
+  paths        : (C17, `path_index` / `path_call`) subscripts with several axes of a 1-d / 2-d array: `x[..., i]`, `x[..., a:b]`,
+                 `x[i, ...]`, `x[i, j]` (an axis that is not indexed is mapped over); `np.argwhere(xs <op> c)` / `(c <op> xs)` of a
+                 1-d array (the positions, increasing; the (n, 1) result is read as the list of its n entries), `np.min / np.max /
+                 np.amin / np.amax (xs)`, `np.maximum / np.minimum` of a scalar and a 1-d array, `any / all` of a comprehension
+                 of conditions; `break` in a `for` loop without inner loops (one more Boolean state variable "the loop was left":
+                 once set, the remaining items leave the state unchanged); argument type "_" of a declared opaque callable: one
+                 of the function's own object parameters handed on unchanged (the Lean function parameter is closed over it).
+  vectors 2    : (C14; `opts["lists"]`) `map(f, xs)` with `f` of the same unit, `reversed(xs)`, `max(xs)` / `min(xs)` of one list
+                 (fold of the 2-argument max from the first element; 0 for an empty list where Python raises), `all / any` of
+                 booleans, `next(<generator expression>)` (first element), `xs + (v,)` / `(v,) + xs`, `return (a, ..)` of a
+                 function whose declared result is a list, `return f(*xs)` of a declared opaque callable (`err` unless len(xs)
+                 is its arity), a walrus as the left operand of an `if` / `while` test (`if (d := e) > 1:` is `d = e; if d > 1:`),
+                 `deque.appendleft`; `opts["call_views"]`: one exact call expression as an opaque function of named locals;
+                 `opts["value_and_stores"]`: a function with `stores` that returns a value gives (value, final stores); a block
+                 view of a function with `stores` needs no `result`.
 Anything else raises `Untranslatable` with the source position: the source tie of that function is then *unavailable* (the
 behavioural correspondence remains), never silently approximated.
 
@@ -228,6 +246,8 @@ class Fn:
         #   "sorted_state": True -> the state tuple of every loop is ordered by variable name (not by first assignment in the
         #                loop body); "definition" -> by the order in which the variables are first bound in the function
         #                (unchanged by renaming and by reordering statements inside the loop)
+        #   "fixed_binders": True -> every declared self_attr / const_call / const_expr / opaque_fn / fn_param is a binder of the
+        #                definition even when the current text does not read it (signature independent of which reads a rewrite keeps)
         #   "records": {"Cls": [(kw, type), ..]} -> the constructor call `Cls(kw=v, ..)` (keyword arguments only) is the tuple of
         #                the values of the listed keyword arguments (a collaborator object read as a record of these fields)
         # parameter types: "Int" | "Rat" | "Bool", "obj" (an object only used through the opaque_* / const_* tables: no binder),
@@ -673,6 +693,9 @@ class _Tr(ast.NodeVisitor):
                 return f"((List.length {lname(e.value.value.id)} : Nat) : Int)", INT      # PyLite 4: ndarray.shape[0]
             if isinstance(e.slice, ast.Tuple):
                 return self.path_index(e)                # (C17) x[..., i], x[..., a:b], x[i, ...], x[i, j]
+            rfi = self.path_fancy(e)                     # (C17) xs[js] with a list of positions
+            if rfi is not None:
+                return rfi
             vs, vt = self.expr(e.value)
             if is_list(vt):
                 if isinstance(e.slice, ast.Slice):
@@ -709,6 +732,7 @@ class _Tr(ast.NodeVisitor):
             nm, ty = self.fn.const_calls[key]
             self.add_param(nm, ty)
             return nm, ty
+        e = self.path_super(e)                    # (C17) super().m(..) -> Base.m(..) when Base.m is a function of this unit
         if key in self.fn.opts.get("call_views", {}):
             # (C14) `opts["call_views"] = {normalised call text: (parameter, [local names], result type)}`: this exact call is the
             # opaque function `parameter` of the current values of the named locals (everything else it reads is a fixed collaborator)
@@ -2118,6 +2142,37 @@ class _Tr(ast.NodeVisitor):
             return apply(f"(Rpylib.Py.idx {term} {self.expr_as(x, INT)})", elem_of(ty), rest)
         return apply(vs, vt, items)
 
+    def path_fancy(self, e):
+        """`xs[js]` with `js` a list of positions (numpy integer-array indexing of a 1-d array): the entries at these positions, in
+        the order of `js`.  None when the subscript is not a list-typed name / expression of integers."""
+        if isinstance(e.slice, (ast.Slice, ast.Constant, ast.Tuple)):
+            return None
+        if not (isinstance(e.slice, ast.Name) and self.env.get(e.slice.id) == "List Int"):
+            return None
+        vs, vt = self.expr(e.value)
+        if not (is_list(vt) and elem_of(vt) in (INT, RAT)):
+            return None
+        j_ = self.fresh("j")
+        return f"(List.map (fun ({j_} : Int) => Rpylib.Py.idx {vs} {j_}) {lname(e.slice.id)})", vt
+
+    def path_super(self, e):
+        """`super().m(..)` in a class with exactly one base class `Base` whose own method `Base.m` is a function of this
+        translation unit: the call `Base.m(..)` (the translated definitions take the attributes they read as parameters, so the
+        receiver is the same object)."""
+        f = e.func
+        if not (isinstance(f, ast.Attribute) and isinstance(f.value, ast.Call) and isinstance(f.value.func, ast.Name)
+                and f.value.func.id == "super" and not f.value.args and not f.value.keywords and self.cls):
+            return e
+        cdef = next((n for n in self.unit.tree.body if isinstance(n, ast.ClassDef) and n.name == self.cls), None)
+        if cdef is None or len(cdef.bases) != 1 or not isinstance(cdef.bases[0], ast.Name):
+            return e
+        base = cdef.bases[0].id
+        if f"{base}.{f.attr}" not in self.unit.fns:
+            return e
+        new = ast.Call(func=ast.Attribute(value=ast.Name(id=base, ctx=ast.Load()), attr=f.attr, ctx=ast.Load()),
+                       args=e.args, keywords=e.keywords)
+        return ast.fix_missing_locations(ast.copy_location(new, e))
+
     def path_call(self, e, fdot, a, kw):
         """`np.argwhere(xs <op> c)` of a 1-d array: the positions where the comparison holds, in increasing order (numpy returns
         them as an (n, 1) array: read as the list of its n entries — `.size`, `len`, `np.min` / `np.max` agree);
@@ -2126,16 +2181,30 @@ class _Tr(ast.NodeVisitor):
         comprehension of conditions.  None when `e` is none of them."""
         if kw or not fdot:
             return None
+        if fdot in ("np.diff", "numpy.diff") and len(a) == 1:
+            s_, t_ = self.expr(a[0])
+            if t_ == "List (List Rat)":                   # np.diff of a 2-d array: along the last axis, row by row
+                return f"(List.map Rpylib.Py.diff {s_})", t_
+            return None
+        if fdot in ("copy.copy", "copy.deepcopy", "np.copy", "numpy.copy") and len(a) == 1:
+            s_, t_ = self.expr(a[0])
+            if is_list(t_):
+                return s_, t_                             # a new array with the same content: values are immutable here
+            return None
         if fdot in ("np.argwhere", "numpy.argwhere", "np.flatnonzero", "numpy.flatnonzero") and len(a) == 1 \
                 and isinstance(a[0], ast.Compare) and len(a[0].ops) == 1:
             ls, lt = self.expr(a[0].left)
+            arr_left = is_list(lt)
+            if not arr_left:                          # `c <op> xs`: the array is the right operand
+                ls, lt = self.expr(a[0].comparators[0])
             if not (is_list(lt) and elem_of(lt) in (INT, RAT)):
                 return None
             tmp, q = self.fresh("m"), self.fresh("q")
             saved = dict(self.env)
             self.env[tmp] = elem_of(lt)
-            cmp_ = ast.copy_location(ast.Compare(left=ast.copy_location(ast.Name(id=tmp, ctx=ast.Load()), a[0]),
-                                                 ops=a[0].ops, comparators=a[0].comparators), a[0])
+            item = ast.copy_location(ast.Name(id=tmp, ctx=ast.Load()), a[0])
+            cmp_ = ast.copy_location(ast.Compare(left=item if arr_left else a[0].left, ops=a[0].ops,
+                                                 comparators=a[0].comparators if arr_left else [item]), a[0])
             c = self.prop(cmp_)
             self.env = saved
             return (f"(List.map Prod.fst (List.filter (fun ({q} : Int × {elem_of(lt)}) => let {tmp} : {elem_of(lt)} := {q}.2; "
@@ -2655,6 +2724,17 @@ def _signature(unit: Unit, fn: Fn):
         body = tr.block(stmts, [])
     finally:
         fn.ret = saved_ret
+    if fn.opts.get("fixed_binders"):
+        # (C10) every collaborator the spec declares is a binder whether or not the current text reads it: a rewrite that adds or
+        # drops a read of a declared attribute / function does not change the signature the obligations are stated against
+        for a_, t_ in fn.self_attrs.items():
+            tr.add_param("self_" + a_.replace("._", "_").replace(".", "_").lstrip("_"), t_)
+        for nm_, t_ in list(fn.const_calls.values()) + list(fn.const_exprs.values()):
+            tr.add_param(nm_, t_)
+        for nm_, atys_, rty_ in fn.opaque_fns.values():
+            tr.add_param(nm_, _stream_ty(" → ".join(list(atys_) + [rty_])))
+        for k_, nm_ in fn.fn_params.items():
+            tr.add_param(nm_, "Rat → Rat → Rat" if k_ == "**" else "Rat → Rat")
     order = [_store_name(a_) for a_ in fn.stores] + ["self_" + a.replace("._", "_").replace(".", "_").lstrip("_") for a in fn.self_attrs] \
         + [nm for nm, _ in fn.const_calls.values()] + [nm for nm, _ in fn.const_exprs.values()] \
         + [nm for nm, _, _ in fn.opaque_fns.values()] + list(fn.fn_params.values())
